@@ -3,8 +3,10 @@ import Bcder.Props.C11b
 #print axioms Bcder.Props.C11.capture_exact
 #print axioms Bcder.Props.C11.capture_one_exact
 #print axioms Bcder.Props.C11.capture_all_exact
-#print axioms Bcder.Props.C11.eoc_counterexample
+#print axioms Bcder.Props.C11.eoc_not_captured
 #print axioms Bcder.Props.C11b.capture_one_value
+#print axioms Bcder.Props.C11b.capture_all_indef_values
+#print axioms Bcder.Props.C11b.untilEoc_values
 #print axioms Bcder.Props.C11b.parse_prefix
 #print axioms Bcder.Props.C11b.captured_value_decodes
 #print axioms Bcder.Props.C11b.captured_value_read_later
